@@ -52,7 +52,7 @@ def case(draw, tier):
     elif draw(st.booleans()):
         c["b"] = [["x", "y", "z", "u", "w"][:nf]] + [list(r) for r in b[1:]]
     # inputs that are themselves whole-row sort views, ascending or descending
-    c["upstream"] = [draw(st.sampled_from(["none", "none", "none", "asc", "desc"])) for _ in range(2)]
+    c["upstream"] = [draw(st.sampled_from(["none", "none", "none", "asc", "desc", "first", "first-name"])) for _ in range(2)]
     # read the result through two interleaved iterators over the one view (None: a single pass)
     c["lag"] = draw(st.sampled_from([None, None, 0, 1, 2]))
     # presorted=True on inputs the harness has sorted (whole rows, reference ordering); with different container forms on
@@ -95,11 +95,16 @@ def check(case, ctx):
     if forms != ["lists", "lists"]:
         ctx.label("container-forms")
     ups = case.get("upstream") or ["none", "none"]
+    def _up(T, t, how):
+        # a sort view as input: the whole row either way, or the first field only (given as index 0 or by name)
+        if how in ("first", "first-name"):
+            k = 0 if how == "first" else t[0][0]
+            return etl.sort(T, k), [list(r) for r in R.ref_sort(t, 0)]
+        return etl.sort(T, reverse=how == "desc"), [list(r) for r in R.ref_sort(t, None, how == "desc")]
     if ups[0] != "none":
-        A = etl.sort(A, reverse=ups[0] == "desc")
-        a = [list(r) for r in R.ref_sort(a, None, ups[0] == "desc")]   # a's order, for the hash variants
+        A, a = _up(A, a, ups[0])   # a's order, for the hash variants
     if ups[1] != "none":
-        B = etl.sort(B, reverse=ups[1] == "desc")
+        B = _up(B, b, ups[1])[0]
     if ups != ["none", "none"]:
         ctx.label("upstream-sortview")
     ba = RS.align(b, a[0]) if op.startswith("record") else b
